@@ -60,4 +60,12 @@ for root, _, files in os.walk(os.path.join(V, "lean", "DateutilVerif")):
             rel = os.path.relpath(os.path.join(root, fn), os.path.join(V, "lean"))[:-5].replace("/", ".")
             mods.append(rel)
 open(os.path.join(V, "lean", "DateutilVerif.lean"), "w").write("".join("import %s\n" % m for m in sorted(mods)))
+# known_findings.json from fragments (development-time assembly; never written by a check)
+kf = {"_comment": "Committed, never written at run time. 'known' entries name a call site, a decidable input class (matcher in harness/props/<prop>.py KNOWN[id]) and one witness; a failure of the property outside every listed class is a VIOLATION. 'fixed' entries suppress nothing.",
+      "fixed": [], "findings": []}
+for f in sorted(glob.glob(os.path.join(V, "known_findings.d", "*.json"))):
+    d = json.load(open(f))
+    kf["fixed"] += d.get("fixed", [])
+    kf["findings"] += d.get("findings", [])
+json.dump(kf, open(os.path.join(V, "known_findings.json"), "w"), indent=1)
 print("MANIFEST: %d checks, %d not_applicable; driver ops: %s; %d modules" % (len(checks), len(man["not_applicable"]), ops, len(mods)))
